@@ -1,12 +1,12 @@
 #!/bin/bash
 # Run checks against a MUTATED copy of gluon without touching /repo (other work may be using it):
-#   tools/mutcheck.sh <patch.diff> "<ID> <ID> …" [tier]
+#   [MUT_TAG=_x] tools/mutcheck.sh <patch.diff> "<ID> <ID> …" [tier]     (MUT_TAG: separate scratch dirs, for concurrent runs)
 # A scratch worktree of /repo HEAD gets the patch; a scratch copy of /verif has its harness
 # path dependencies and translators pointed at that worktree (VERIF_REPO) and its own target dir.
 # Equivalent to `git -C /repo apply patch; ./check …; git -C /repo checkout -- .`.
 set -e
 PATCH=$(readlink -f "$1"); IDS="$2"; TIER="${3:-quick}"
-WT=/tmp/mutwt; MV=/tmp/mutverif
+TAG="${MUT_TAG:-}"; WT=/tmp/mutwt$TAG; MV=/tmp/mutverif$TAG; MB=/tmp/mutbuild$TAG
 # a frozen copy of /verif, when present, is what gets tested (keeps seeded-change tests independent of later edits)
 if [ -z "$VERIF_SRC" ] && [ -d /tmp/verif_snapshot_current ]; then VERIF_SRC=/tmp/verif_snapshot_current; fi
 if [ ! -d $WT ]; then git -C /repo worktree add -q --detach $WT HEAD; fi
@@ -16,9 +16,9 @@ mkdir -p $MV
 rsync -a --delete --exclude .build --exclude out --exclude .git --exclude replay --exclude evidence --exclude ".audit_*" ${VERIF_SRC:-/verif}/ $MV/ || true
 mkdir -p $MV/replay $MV/evidence
 sed -i "s#path = \"/repo#path = \"$WT#g" $MV/harness/Cargo.toml
-sed -i "s#target-dir = \"/verif/.build\"#target-dir = \"/tmp/mutbuild\"#" $MV/harness/.cargo/config.toml
-if [ ! -d /tmp/mutbuild ]; then cp -a /verif/.build /tmp/mutbuild; fi
-ln -sfn /tmp/mutbuild $MV/.build
+sed -i "s#target-dir = \"/verif/.build\"#target-dir = \"$MB\"#" $MV/harness/.cargo/config.toml
+if [ ! -d $MB ]; then cp -a /verif/.build $MB; fi
+ln -sfn $MB $MV/.build
 # every literal "/repo…" path in the harness sources / translators (std import path, #[path] includes, seed files)
 grep -rl '/repo' $MV/harness/src $MV/translate | xargs sed -i "s#/repo#$WT#g"
 cd $MV
